@@ -14,6 +14,8 @@ PROP = "C16"
 GEN_REGIONS: List[str] = ["Dsp"]
 THEOREMS = {
     "SpecKitV.Lemmas.Taps": ["tap_eq_lagrange", "taps_sum_one", "taps_reproduce_poly", "tap_at_zero"],
+    # the taps as translated from dsp.lagrange_taps on every run ARE the model taps, hence the Lagrange weights
+    "SpecKitV.Props.TapsGen": ["gen_taps_eq_model", "gen_taps_eq_lagrange", "gen_taps_sum_one", "gen_taps_reproduce_poly", "gen_tap_at_zero"],
     "SpecKitV.Lemmas.TimeShiftPaths": ["clampIdx_lt", "shiftConst_interior", "paths_agree_interior", "shiftConst_is_interpolant",
                                        "shiftConst_reproduces_poly", "shiftConst_integer", "shiftConst_zero", "shiftConst_const"],
 }
